@@ -4,6 +4,7 @@ import TeosVerif.Driver.SlotsDrv
 import TeosVerif.Driver.ConfigDrv
 import TeosVerif.Driver.LocksDrv
 import TeosVerif.Driver.OutageDrv
+import TeosVerif.Driver.ClientDrv
 /- The model driver: one operation per input line, one canonical output line per operation. -/
 open Teos Teos.Drv
 
@@ -11,6 +12,7 @@ structure DState where
   ti : TiState := {}
   tw : TwState := {}
   ou : Teos.Outage.St := {}
+  cl : Teos.Client.Client := Teos.Client.Client.fresh
 
 def step (st : DState) (line : String) : DState × String :=
   match words line with
@@ -20,6 +22,7 @@ def step (st : DState) (line : String) : DState × String :=
   | "cf" :: rest => (st, cfStep rest)
   | "cc" :: rest => (st, ccStep rest)
   | "ou" :: rest => let (t, o) := ouStep st.ou rest; ({ st with ou := t }, o)
+  | "cl" :: rest => let (t, o) := clStep st.cl rest; ({ st with cl := t }, o)
   | "tw" :: rest => let (t, o) := twStep st.tw rest; ({ st with tw := t }, o)
   | _ => (st, "bad-op")
 
